@@ -216,7 +216,7 @@ theorem pushNone_completeH : ∀ (b : B) (dt : DataType) (n : Bool) (md : Metada
     exact (bind_ok _ _ _).2 ⟨_, hv, (bind_ok _ _ _).2 ⟨_, hfs, rfl⟩⟩
   | .dictionary p idx vals index, dt, n, md, lv, _, hs, _, hi => by
     simp only [Shape] at hs
-    obtain ⟨⟨kdt, vdt, rfl⟩, hil, hnl, _⟩ := hs
+    obtain ⟨⟨kdt, vdt, rfl, hsv⟩, hil, hnl, _⟩ := hs
     have hn := interpNull_nullable hi (by simp)
     obtain ⟨p', t, v, vals', rfl⟩ := isIntLeaf_form hil
     simp only [B.isNullable] at hnl
